@@ -398,6 +398,11 @@ def determinism_slice(pid, tier, seed):
     c = r.stdout.strip().splitlines()[-1] if r.stdout.strip() else f"<no output, exit {r.returncode}: {r.stderr[-200:]}>"
     # "stable|full": the full part is compared between cold processes only (first in-process run vs
     # fresh interpreter); the stable part must also survive a warm repeat
-    stable = lambda x: x.split("|")[0]  # noqa
-    return {"in_process": a, "repeat": b, "fresh_interpreter_other_hashseed": c,
-            "mismatch": not (a == c and stable(a) == stable(b))}
+    # The warm repeat in the same process is compared only on the part a driver declares stable: a correct
+    # implementation may memoise (lru_cache on a helper), so traced line counts and anything derived from
+    # them can legitimately differ between a cold and a warm run.  Drivers without a declared stable part
+    # are compared cold-vs-cold only.
+    mismatch = a != c
+    if "|" in a and a.split("|")[0] != b.split("|")[0]:
+        mismatch = True
+    return {"in_process": a, "repeat": b, "fresh_interpreter_other_hashseed": c, "mismatch": mismatch}
